@@ -366,6 +366,7 @@ class UserManager(BaseManager):
 
     @on_message(AddPrivilegedUser.Response)
     async def _on_add_privileged_user(self, message: AddPrivilegedUser.Response, connection: ServerConnection):
+        self._privileged_users.add(message.username)
         user = self.get_user_object(message.username)
         user.privileged = True
 
